@@ -21,7 +21,7 @@ claimed = {
    'Canonical key abstracts the sequence map to "next packet is in order" (argument in DESIGN.md); in order = immediate successor; first packet of a stream exempt from the withholding rule; VP9 packets without layer indices included; the concurrent sub-check reports the lost updates on the layer word as known findings (see known_findings.jsonl).', 'DESIGN.md §3 C04'),
  'C05': ('A+B',
    'explicit-state BFS over store/get/getAt/resize sequences on the real cache + preemption-bounded schedule enumeration with vector-clock race monitor',
-   'Exhaustive BFS (canonical-state dedup) of all operation sequences over a colliding seqno/size/capacity alphabet up to the stated depth on the real packetcache.Cache, compared step by step with a bounded-FIFO reference; plus every schedule with <=2 (thorough: 3) preemptions of one writer and two readers with all Cache/entry fields monitored for happens-before races.',
+   'Exhaustive BFS (canonical-state dedup) of all operation sequences over a colliding seqno/size/capacity alphabet up to the stated depth on the real packetcache.Cache, compared step by step with a bounded-FIFO reference; plus every schedule with <=2 (thorough: 3) preemptions of one writer and two readers with all Cache/entry fields monitored for happens-before races, and of a reader of packets that stay retained while the wrapped cache is grown, written and shrunk (each lookup must return the packet).',
    'Packet contents are opaque to the cache; result buffers are BufSize long; bounds: depth, alphabet and preemption bound as reported in evidence.',
    'DESIGN.md §3 C05'),
  'C06': ('A', 'explicit-state BFS over arrival histories through the real readLoop with NACK capture and statistics sampling; full enumeration for ToBitmap and nackWriter',
@@ -49,7 +49,7 @@ claimed = {
    'Full product of 8 roles x 11 membership states (never joined, refused for each cause, joined, left, kicked, other group, revoked-and-notified) x 28 privileged message kinds x unrestricted-tokens, each executed on real webClients through the real handleClientMessage/handleAction; any effect other than a refusal to the sender requires membership and the permission; installed permissions vs reference; token delegation product; edit/list token scope; revocation interleaving points.',
    'Trusted mirror: clientLoop dispatch (one message or one action batch at a time; Exit on error); WHIP ingest credentials only through the HTTP product of C12 (no live sessions).', 'DESIGN.md §3 C11'),
  'C12': ('A+D', 'bounded exhaustive enumeration of client inputs (RTP/RTCP shape grammars, HTTP request product, sdpfrag line sequences, ill-typed signalling messages in every membership state) with a no-panic/response oracle',
-   'Every byte string of stated RTP/RTCP shape grammars (all 65536 descriptor prefixes, header shapes, AV1/H264 aggregation headers, every truncation) through the real classifiers, RewritePacket, rtpDownTrack.Write, readLoop and both RTCP listeners; full product of HTTP method x path shape x credential x content-type x body x precondition through the real handlers; every string of <=5/7 characters over {W / \" x * , space} as If-Match/If-None-Match value through checkPreconditions; all sdpfrag line sequences; every signalling message type with each field absent/ill-typed/empty/unknown/huge in 13 membership states, singly and in pairs.',
+   'Every byte string of stated RTP/RTCP shape grammars (all 65536 descriptor prefixes, header shapes, AV1/H264 aggregation headers, every truncation) through the real classifiers, RewritePacket, rtpDownTrack.Write, readLoop and both RTCP listeners; full product of HTTP method x path shape x credential x content-type x body x precondition through the real handlers; an AV1 OBU grammar (element lengths, OBU types, extension flag); receiver reports whose delay lies around the time elapsed since the sender report, followed by the real statistics computation; every string of <=5/7 characters over {W / \" x * , space} as If-Match/If-None-Match value through checkPreconditions; all sdpfrag line sequences; every signalling message type with each field absent/ill-typed/empty/unknown/huge in 13 membership states, singly and in pairs.',
    'Inputs outside the grammars; no live WebRTC session; net/http wire parsing and /ws upgrade not covered; shards that die are reported from their progress file.', 'DESIGN.md §3 C12'),
  'C19': ('A', 'exhaustive enumeration of all strings up to a length bound over a path-relevant alphabet through validators, group layer, HTTP handlers (three wire forms) and the disk writer, with a file-system operation log and sentinel files',
    'Every string of <=4 (thorough: 6) symbols over {a,b,.,/,\\,%,NUL,e-acute,space} is used as group name, username, token, recordings path, static path and delete-form filename through the real group layer, the routes registered by the real webserver.Serve (plain, percent-encoded and double-encoded forms) and the real diskwriter; every file-system operation of the instrumented packages must stay inside the directory of its category, sentinels outside stay untouched and unserved, nothing is served for a name the reference predicate rejects; validGroupName/validUsername agree with the predicate on all strings of <=7/8 symbols.',
@@ -61,7 +61,7 @@ claimed = {
    'BFS over chat and usermessage variants (claimed source/username, dest, noecho, kinds, ids), clearchat variants, joins of late clients, a 49-message macro and clock ticks around the configured history age, by three clients with different roles in two groups; every message written to every client is checked for authenticity, privileged flag, recipients, spoof rejection and the history replay (order, bound 50, age, clears); plus race programs in which a client joins (history replay) while others post to a full history or clear it, under every schedule with <=2/3 preemptions.',
    'Queued actions handled to quiescence after every message; client k logs in as the k-th user.', 'DESIGN.md §3 C15'),
  'C16': ('A+B+C', 'explicit-state BFS over token operation sequences (library and HTTP) vs fresh reload; preemption-bounded schedule enumeration of conditional editors; crash-point and fault enumeration over every file-system step',
-   'BFS over create/update/delete with current, stale and empty tags, expire, clock ticks, list, get and external file edits, through the library and the HTTP route, comparing the running server with a freshly loaded state after every step; all schedules (<=2/3 preemptions) of 2-3 editors holding tags; a crash before and after every vos step of five write histories, and one injected I/O error at every step.',
+   'BFS over create/update/delete with current, stale and empty tags, expire, clock ticks, list, get and external file edits, through the library and the HTTP route, comparing the running server with a freshly loaded state after every step; all schedules (<=2/3 preemptions) of 2-3 editors holding tags, through the library and (GET for the entity tag, then PUT/DELETE with If-Match) through the real HTTP handlers; a crash before and after every vos step of five write histories followed by a restart that deletes every token in turn (shrinking rewrites) and creates one, and one injected I/O error at every step.',
    'Process-crash model (no fsync is claimed or demanded for the token file); one Write per Encode granularity; signalling commands reach the store only through the library calls driven here.', 'DESIGN.md §3 C16'),
  'C17': ('A+B', 'full product enumeration method x endpoint shape x credential x body through the real apiHandler; BFS over valid update sequences vs a reference model of the description; preemption-bounded schedule enumeration of a definition update against concurrent user, password and key updates',
    'Full product of 7 methods x 199 paths (every router shape) x 23 credentials x content-types executed in-process: insufficient credentials must get 401/404 with byte-identical trees and no data; no response ever contains a secret marker; BFS over valid admin updates checks that nothing unaddressed is lost or altered on disk; every schedule (<=2/3 preemptions, file-system steps are scheduling points) of UpdateDescription against UpdateUser/SetUserPassword/DeleteUser/SetKeys on the same group: every acknowledged update is in the file at the end.',
